@@ -34,29 +34,35 @@ def make_scenario(assign, rng, share_exe=None, n_val=None, deco=None, retries=No
     runs, scripts = [], []
     for i, b in enumerate(assign):
         n = n_val if n_val is not None else rng.randint(1, 3)
+        # successful invocations deliver 1-4 data points and warm-up varies 0-3, so that the number of samples
+        # (non-warm-up data points) and the number of recorded invocations differ in both directions
         r = {'N': n, 'retries': rng.choice([0, 0, 1, 2]) if retries is None else retries,
-             'exe': i if share_exe is None else share_exe[i], 'beh': b}
+             'exe': i if share_exe is None else share_exe[i], 'beh': b,
+             'warmup': rng.choice([None, 0, 1, 2, 3])}
+
+        def ok():
+            return dict(OK, dps=rng.choice([1, 2, 3, 4]))
         if b == 'ok' or b == 'done':
-            sc = [dict(OK, dps=rng.choice([1, 1, 2]))] * n
+            sc = [ok() for _ in range(n)]
         elif b == 'fail0':
             sc = [dict(rng.choice([FAIL, {'rc': 0, 'dps': 0}, {'rc': 0, 'dps': 1, 'marker': True}, {'rc': -9, 'dps': 1},
                                    {'rc': 126, 'dps': 0}]))] * (r['retries'] + 1)
         elif b == 'failk':
             r['N'] = n = max(2, n)
             k = rng.randint(1, n - 1)
-            sc = [dict(OK)] * k + [dict(FAIL)] * (r['retries'] + 1)
+            sc = [ok() for _ in range(k)] + [dict(FAIL)] * (r['retries'] + 1)
         elif b == 'missing':
-            sc = [dict(OK)] * rng.choice([0, 0, 1]) + [{'rc': 127, 'dps': 0}]
+            sc = [ok() for _ in range(rng.choice([0, 0, 1]))] + [{'rc': 127, 'dps': 0}]
             if len(sc) > n:
                 sc = sc[-1:]
         elif b == 'build':
-            sc = [dict(OK)] * n
+            sc = [ok() for _ in range(n)]
             if rng.random() < 0.5:
                 r['ebuild'] = r['exe']
             else:
                 r['sbuild'] = i
         elif b == 'adapter':
-            sc = [dict(OK)] * n
+            sc = [ok() for _ in range(n)]
             r['adapter'] = False
         runs.append(r)
         scripts.append(sc)
@@ -158,8 +164,16 @@ def run_scenario(ck, scn, scripts, sched, choices, faulty, tag, stop_at=None, wi
     obsB = run_with_interrupt(wd, scn, sessB, stop_at)
     ck.impl_traces += 1
     obsB['file_new'] = _new_rows(file_before, obsB['file'])
-    for r in scn['runs']:
+    for r, sc in zip(scn['runs'], scripts):
         ck.count('beh:' + r['beh'])
+        w = r.get('warmup') or 0
+        good = [o['dps'] for o in sc if o.get('rc') == 0 and o.get('dps') and not o.get('marker')]
+        if good and max(good) > 1:
+            ck.count('several-data-points-per-invocation')
+        if good and w >= min(good):
+            ck.count('invocation-all-warmup')
+        if r['beh'] == 'failk' and sum(max(0, d - w) for d in good) >= r['N']:
+            ck.count('abandoned-with-samples>=N')
     ck.count('sched:' + sched)
     ck.count('status:' + obsB['status'])
     ck.case(nontrivial_key=(tag, json.dumps(scn, sort_keys=True), sched, faulty, str(stop_at))
@@ -199,7 +213,7 @@ def containment(ck, inp, scn, scripts, fb, done, obsB, faulty, enabled):
         aff = affected(scn, fb)
         unaffected = [i for i in range(len(scn['runs'])) if i not in aff and i not in done]
         removed = [i for i in range(len(scn['runs'])) if i in aff]
-        if unaffected and (removed or rng.random() < 0.2):
+        if unaffected and (removed or rng.random() < (0.1 if ck.tier == "quick" else 0.2)):
             # control: only the unaffected runs, batch scheduler, fresh data file
             wd2 = c04._mkwd(ck)
             sfx = (scn.get('deco') or {}).get('name_suffix', '')
@@ -225,7 +239,7 @@ def containment(ck, inp, scn, scripts, fb, done, obsB, faulty, enabled):
             if r['beh'] in ('build', 'adapter'):
                 exp_starts = []
             else:
-                cfg = {'N': r['N'], 'retries': r['retries'], 'warmup': None, 'ignore_timeouts': False}
+                cfg = {'N': r['N'], 'retries': r['retries'], 'warmup': r.get('warmup'), 'ignore_timeouts': False}
                 exp_starts = c04.prop_expect(cfg, faulty, scripts[i])['starts']
             got = [inv for (kind, rr, inv) in obsB['log'] if kind == 'start' and rr == i]
             if got != exp_starts:
@@ -454,7 +468,7 @@ def run(ck):
             run_scenario(ck, scn, scripts, sched, choices, rng.random() < 0.12, 'enum%d' % n)
     ck.exhaustive = True
     # sampled larger assignments
-    for _ in range(150 if quick else 1500):
+    for _ in range(70 if quick else 1500):
         n = rng.randint(4, 5)
         assign = [rng.choice(BEHAVIOURS) for _ in range(n)]
         share = [rng.randrange(3) for _ in range(n)] if rng.random() < 0.6 else None
